@@ -148,6 +148,16 @@ def parseOp (line : String) : Op :=
     match t.toInt?, items.mapM parseItem? with
     | some t, some items => .scrape t (.body items)
     | _, _ => .bad
+  | "scrape" :: t :: "read" :: how :: pos :: items =>
+    -- the body goes through the production readResponse: `cut` (connection fails after `pos` bytes) and
+    -- `limit` (body_size_limit = min(pos, len) ≥ 1) are read failures, `under` is an ordinary body
+    match t.toInt?, pos.toNat?, items.mapM parseItem? with
+    | some t, some pos, some items =>
+      if how = "cut" then .scrape t (.readFail items)
+      else if how = "limit" then (if pos ≥ 1 ∧ !items.isEmpty then .scrape t (.readFail items) else .bad)
+      else if how = "under" then .scrape t (.body items)
+      else .bad
+    | _, _, _ => .bad
   | _ => .bad
 
 def showRes : Res → String
@@ -354,14 +364,17 @@ def findingOf (js : JSt) (ts : String) (got want : List String) : Option String 
 
 def judgeScrape (P : Params) (js : JSt) (t : Int) (sc : Scrape) (evs : List JTok) : JSt × Option String :=
   let ts := toString t
-  let items := match sc with | .err => [] | .body items => items
+  -- what must be stored: the exposed body — NOTHING when the scrape or the read of its body failed,
+  -- whatever part of the body had been read
+  let items := match sc with | .err => [] | .body items => items | .readFail _ => []
+  let isReadFail := match sc with | .readFail _ => true | _ => false
   let w := items.foldl (walkItem P t) { evs := evs }
   match w.err with
   | some e => (js, some e)
   | none =>
   let now := dedupStrs w.tracked
   let failed := w.fatal || w.limitHit
-  let isErr := match sc with | .err => true | .body _ => false
+  let isErr := match sc with | .err => true | .body _ => false | .readFail _ => true
   -- the statement: markers for every tracked series that is not exposed now; ALL of them on failure
   let ideal := if failed then js.tracked else js.tracked.filter fun s => !now.contains s
   -- the known deviation (finding): a failed append leaves the series it had parsed tracked
@@ -376,7 +389,21 @@ def judgeScrape (P : Params) (js : JSt) (t : Int) (sc : Scrape) (evs : List JTok
     let (ms, rest) := takeMarkers rest
     let up := if isErr || failed then natBitsHex 0 else natBitsHex 1
     let vals := if failed then [some up, none, none, none, none]
+                else if isErr then [some up, none, some (natBitsHex 0), some (natBitsHex 0), some (natBitsHex 0)]
                 else [some up, none, some (natBitsHex w.total), some (natBitsHex w.post), none]
+    -- a failed read: after the markers only the five reports and the commit — any other event is a
+    -- sample of the partially read body (or the rollback of its failed append)
+    let extra : Option String :=
+      if isReadFail && rest.length != 6 then
+        some (match rest with
+          | .call e :: _ => s!"{e.series}@{e.t}={e.val}"
+          | .rollback :: _ => "rollback"
+          | .commit :: _ => "commit"
+          | _ => "junk")
+      else none
+    match extra with
+    | some x => (next, some s!"violation read-failure-stored-body scrape={ts} unexpected={x} events={evs.length}")
+    | none =>
     match checkReports P rest ts vals with
     | some e => (next, some (e ++ s!" scrape={ts}"))
     | none =>
